@@ -209,6 +209,7 @@ func init() {
 					return rp.Fail(i, "step %d: ReadMessage failed: %v", k, err)
 				}
 				consumedItems++
+				c.Hold(i, "payload of a message returned by ReadMessage", m.Payload) // the caller's: later reads must not write to it
 				pkt, err := pa.DecodeMessage(m)
 				got := "error"
 				if err == nil {
@@ -263,6 +264,7 @@ func init() {
 				if int(m.MessageType) != s.Type {
 					return rp.Fail(i, "step %d: ExpectMessage(%d) returned type %d", k, s.Type, m.MessageType)
 				}
+				c.Hold(i, "payload of a message returned by ExpectMessage", m.Payload)
 				if want.I == "media" {
 					if err := (rtmpx.Msg{ID: want.ID, Type: want.Type, Sid: 1, Ts: int64(m.Timestamp), Len: want.N}).Same(m, c.Seed); err != nil {
 						return rp.Fail(i, "step %d: ExpectMessage(%d) did not return the first message of that type: %v", k, s.Type, err)
